@@ -7,12 +7,16 @@ from gen import versions as G
 from run import Prop
 
 _drv = None
+_drv_pid = None
 
 
 def drv():
-    global _drv
-    if _drv is None:
+    """one model driver per process (never shared across a fork)"""
+    global _drv, _drv_pid
+    import os
+    if _drv is None or _drv_pid != os.getpid():
         _drv = core.Driver()
+        _drv_pid = os.getpid()
     return _drv
 
 
@@ -46,7 +50,7 @@ class C12(Prop):
     partial = ["numeric components longer than the interpreter's int-from-string limit are in the language but cannot be "
                "constructed by CPython >= 3.11 (known finding)",
                "'a clause is accepted inside a requirement iff Specifier accepts it' is checked by correspondence/laws, not proved"]
-    budget = {"quick": (4000, 3000), "thorough": (120000, 80000)}
+    budget = {"quick": (4000, 3000), "thorough": (600000, 400000)}
 
     def _strings(self, rng, n):
         for i in range(n):
